@@ -5,7 +5,8 @@ import PdfVerif.Model.CNTState
 The typed methods of `builder.Builder` are thin wrappers around `emit`, which is modelled here
 together with `Harvest`, `Close` and `Reset`:
 
-* `emit` — sticky error; `CheckOperatorVersion` (abstract predicate `verOK`: the theorems hold for
+* `emit` — sticky error; the checks in front of `ApplyOperator`: finite operands (D-C15-4) and
+  `CheckOperatorVersion` (abstract predicate `verOK` on name and operands: the theorems hold for
   every version table), then `State.ApplyOperator`; the operator is appended to `Stream` in all
   three cases, the state changes only when it was accepted;
 * a method may refuse its arguments without emitting (`fail`: `b.Err = …`), may emit nothing
@@ -28,12 +29,12 @@ structure Bld where
   done : List (Bytes × List Obj)
   err : Bool
 
-def Bld.new (ct : Nat) (strict : Bool) : Bld := ⟨initSt ct strict, [], [], false⟩
+def Bld.new (ct : Nat) (strict ver : Bool) : Bld := ⟨initSt ct strict ver, [], [], false⟩
 
 /-- `emit` -/
-def Bld.emit (verOK : Bytes → Bool) (b : Bld) (name : Bytes) (args : List Obj) : Bld :=
+def Bld.emit (verOK : Bytes → List Obj → Bool) (b : Bld) (name : Bytes) (args : List Obj) : Bld :=
   if b.err then b
-  else if !verOK name then { b with err := true, stream := b.stream ++ [(name, args)] }
+  else if !verOK name args then { b with err := true, stream := b.stream ++ [(name, args)] }
   else
     match applyOperator b.st name args with
     | .error _ => { b with err := true, stream := b.stream ++ [(name, args)] }
@@ -41,25 +42,25 @@ def Bld.emit (verOK : Bytes → Bool) (b : Bld) (name : Bytes) (args : List Obj)
 
 /-- a change of `State` which leaves the structure alone (graphics parameters only) -/
 def AdjustOK (s s1 : St) : Prop :=
-  s1.obj = s.obj ∧ s1.nesting = s.nesting ∧ s1.stack = s.stack ∧ s1.strict = s.strict
+  s1.obj = s.obj ∧ s1.nesting = s.nesting ∧ s1.stack = s.stack ∧ s1.strict = s.strict ∧ s1.ver = s.ver
 
 inductive BAct where
   | emit (name : Bytes) (args : List Obj)
   | fail                                   -- a method rejects its arguments: `b.Err = …`
   | adjust (f : St → St)                   -- direct update of graphics parameters
   | harvest
-  | reset (ct : Nat) (strict : Bool)
+  | reset (ct : Nat) (strict ver : Bool)
 
 /-- one action; `adjust f` is only performed if it respects `AdjustOK` (decided by the caller of
     the model: the theorems quantify over all `f` with that property) -/
-def Bld.act (verOK : Bytes → Bool) (b : Bld) : BAct → Bld
+def Bld.act (verOK : Bytes → List Obj → Bool) (b : Bld) : BAct → Bld
   | .emit n a => b.emit verOK n a
   | .fail => { b with err := true }
   | .adjust f => if b.err then b else { b with st := f b.st }
   | .harvest => if b.err then b else { b with stream := [], done := b.done ++ b.stream }
-  | .reset ct strict => Bld.new ct strict
+  | .reset ct strict ver => Bld.new ct strict ver
 
-def Bld.runActs (verOK : Bytes → Bool) (b : Bld) : List BAct → Bld
+def Bld.runActs (verOK : Bytes → List Obj → Bool) (b : Bld) : List BAct → Bld
   | [] => b
   | a :: rest => (b.act verOK a).runActs verOK rest
 
